@@ -280,6 +280,16 @@ func runX(s XScript) (nontrivial bool, key string, f *vt.Finding) {
 		cX.Exclude("discard:" + w.discard)
 		return false, key, nil
 	}
+	if s.Probe == "" {
+		for _, e := range exps {
+			if e.res.KnownA {
+				// listed finding escaped-ref-rewritten: the rewritten text can form references nobody wrote
+				// (even self-references that never terminate), so the shape is not run in the main pass
+				cX.Exclude("escaped-ref-rewritten")
+				return false, key, nil
+			}
+		}
+	}
 	if w.danger != "" && !vt.IsChild() {
 		// listed non-terminating shape: never run in-process
 		cX.Exclude(w.danger)
@@ -421,7 +431,7 @@ func judgeX(s *XScript, w *world, exps []expect) (nontrivial bool, f *vt.Finding
 		for _, e := range exps {
 			// an unasserted typed field may hold anything; a typed value whose original text could not be
 			// expanded loses its text and cannot go into a string field
-			if (e.res.TEx != "" && e.kind != "str") || e.res.SEx == "original-error" {
+			if (e.res.TEx != "" && e.kind != "str") || e.res.UErrMay {
 				cX.Class("outcome:unmarshal-error-in-unasserted-context")
 				return nontrivial, nil
 			}
@@ -553,5 +563,5 @@ func fieldOf(tv reflect.Value, name string) any {
 }
 
 func TestExpand(t *testing.T) {
-	vt.Run(t, cX, vt.N(60000, 3000000), genX, runX)
+	vt.Run(t, cX, vt.N(40000, 3000000), genX, runX)
 }
